@@ -230,9 +230,10 @@ pub fn gen_case(seed: u64, k: u64, profile: Profile) -> Case {
             merged.push(r);
         }
     }
-    // global splits must not sit next to affiliate-specific splits (acb refuses such inputs before
-    // bookkeeping); drop the affiliate-specific ones that do
-    let merged = drop_adjacent_specific_splits(merged);
+    // global splits must not sit within a day of affiliate-specific splits (acb refuses such inputs before
+    // bookkeeping: Tx!DupSplit); drop the affiliate-specific ones that do.  Two days apart is a valid input
+    // and stays.
+    let merged = drop_adjacent_specific_splits(with_neighbouring_specific_splits(merged));
     let files = match rng.gen_range(0..10) {
         0..=1 if merged.len() > 2 => {
             let cut = rng.gen_range(1..merged.len());
@@ -272,13 +273,45 @@ fn split_pair(s: &str) -> (Decimal, Decimal) {
     (t[0].parse().unwrap(), t[1].parse().unwrap())
 }
 
+/// Next to some splits for all affiliates, a value-neutral split of the default affiliate alone two days
+/// before or after: a valid input (the refusal of "duplicate split entries" reaches one day, Tx!DupSplit).
+/// Chosen by the date, so the random stream of the other rows is untouched.
+fn with_neighbouring_specific_splits(rows: Vec<Row>) -> Vec<Row> {
+    let mut out = Vec::with_capacity(rows.len() + 2);
+    for r in rows {
+        let global = r.act.to_lowercase() == "split" && r.af.trim().is_empty();
+        let off = match r.td.rem_euclid(5) {
+            0 => 2,
+            1 => -2,
+            _ => 0,
+        };
+        if global && off != 0 {
+            let mut n = r.clone();
+            n.af = "Default".into();
+            n.split = "1-for-1".into();
+            n.td = r.td + off;
+            n.sd = r.sd + off;
+            if off < 0 {
+                out.push(n);
+                out.push(r);
+            } else {
+                out.push(r);
+                out.push(n);
+            }
+        } else {
+            out.push(r);
+        }
+    }
+    out
+}
+
 fn drop_adjacent_specific_splits(rows: Vec<Row>) -> Vec<Row> {
     let is_split = |r: &Row| r.act.to_lowercase() == "split";
     let globals: Vec<(String, i64)> = rows.iter().filter(|r| is_split(r) && r.af.trim().is_empty()).map(|r| (r.sec.clone(), r.td)).collect();
     rows.into_iter()
         .filter(|r| {
             if is_split(r) && !r.af.trim().is_empty() {
-                !globals.iter().any(|(s, td)| *s == r.sec && (td - r.td).abs() <= 2)
+                !globals.iter().any(|(s, td)| *s == r.sec && (td - r.td).abs() <= 1)
             } else {
                 true
             }
